@@ -1186,6 +1186,13 @@ Definition wf_file := wf_file_s false.
 (* … and every SEC code is one NewBatch accepts *)
 Definition wf_file_strict := wf_file_s true.
 
+(* every header carries a SEC code NewBatch accepts *)
+Definition secs_valid (f : file) : bool :=
+  forallb (fun ob => match ob with
+                     | Some b => match b_header b with Some h => sec_valid (h_sec h) | None => true end
+                     | None => true
+                     end) (f_batches f).
+
 (* which conjunct of [wf_file] a shape violates first: the class of the known finding *)
 Inductive shape_class := ShWf | ShNilBatcher | ShNilHeader | ShNilControl | ShNilEntry | ShNilAddenda
                        | ShNilIATHeader | ShNilIATControl | ShNilIATEntry | ShNilIATAddenda.
